@@ -566,8 +566,13 @@ impl Parser {
             .and_then(|fields| {
                 fields
                     .iter()
-                    .filter_map(|field| field.as_object())
-                    .map(|field| RecordField::parse(field, self, &fully_qualified_name))
+                    .map(|field| {
+                        // A field that is not a JSON object is malformed, not ignorable
+                        let field = field
+                            .as_object()
+                            .ok_or_else(|| Error::new(Details::GetRecordFieldsJson))?;
+                        RecordField::parse(field, self, &fully_qualified_name)
+                    })
                     .collect::<Result<_, _>>()
             })?;
 
